@@ -122,7 +122,7 @@ bool SeasmartToN2k(const char *buffer, uint32_t &timestamp, tN2kMsg &msg) {
   msg.Clear();
 
   const char *s = buffer;
-  if (strncmp("$PCDIN,", s, 6) != 0) {
+  if (strncmp("$PCDIN,", s, 7) != 0) {
     return false;
   }
   s += 7;
